@@ -97,7 +97,7 @@ func opensslVerifyData(dir string, blob, content []byte) (bool, string) {
 
 func runC05(c *Ctx) {
 	rng := c.Rng
-	n := c.N(120, 1500)
+	n := c.N(120, 6000)
 	maxContent := c.Bound(1500, 6000)
 	for i := 0; i < n; i++ {
 		bits := 2048
@@ -242,7 +242,7 @@ func runC05(c *Ctx) {
 		}
 	}
 	// SignAuthenticode: the same through the Authenticode wrapper
-	for i := 0; i < c.N(15, 200); i++ {
+	for i := 0; i < c.N(15, 800); i++ {
 		key := rsaKey(2048, i%2)
 		cert := mintCert(key, genIssuer(rng), genSerial(rng))
 		img := randBytes(rng, rng.Intn(500))
